@@ -129,6 +129,12 @@ def cond(draw, depth, values, names):
     return ts[0] if n == 1 else ("or", ts)
 
 
+# symbols defined after the conditional structure (forward references from branch bodies); their names look like
+# conditional directives on purpose.  mov.w #sym, r10 = 3a 40 lo hi (value is not a constant-generator value)
+TRAILER = [("ifg_shadow", 0x1234), ("else_count", 0x1235), ("endif_mask", 0x1236), ("iflag", 0x1237),
+           ("ifdef_x", 0x1238), ("ifndef_y", 0x1239)]
+
+
 # --------------------------------------------------------------- program AST
 class Gen:
     def __init__(self):
@@ -146,11 +152,13 @@ def block(draw, g, depth):
     n = draw(st.integers(0, 4))
     for _ in range(n):
         c = draw(st.integers(0, 11))
-        if c <= 4 or g.marker > 240:
+        if c <= 3 or g.marker > 240:
             if g.marker > 240:
                 continue
             g.marker += 1
             items.append(("marker", g.marker))
+        elif c == 4 and draw(st.booleans()):
+            items.append(("imm", draw(st.sampled_from([t[0] for t in TRAILER]))))
         elif c == 5:
             name = "lb%d" % g.nlabel
             g.nlabel += 1
@@ -219,7 +227,10 @@ def model(prog):
         for it in items:
             k = it[0]
             if k == "marker":
-                img.append(it[1])
+                img.extend([it[1], it[1] ^ 0xff])      # two bytes: keeps msp430 instructions word aligned
+            elif k == "imm":
+                v = dict(TRAILER)[it[1]]
+                img.extend([0x3a, 0x40, v & 0xff, v >> 8])
             elif k == "label":
                 env["syms"][it[1]] = len(img)
                 labels[it[1]] = len(img)
@@ -247,6 +258,8 @@ def model(prog):
                     if els is not None:
                         walk(els, depth + 1)
     walk(prog, 0)
+    for n, v in TRAILER:
+        labels[n] = v
     return img, labels, info
 
 
@@ -256,7 +269,9 @@ def render(prog, ind=0):
     for it in prog:
         k = it[0]
         if k == "marker":
-            out.append(pad + ".db %d" % it[1])
+            out.append(pad + ".db %d, %d" % (it[1], it[1] ^ 0xff))
+        elif k == "imm":
+            out.append(pad + "mov.w #%s, r10" % it[1])
         elif k == "label":
             out.append("%s:" % it[1])
         elif k == "define":
@@ -341,6 +356,13 @@ MALFORMED = [
 ]
 
 
+def full_source(prog):
+    tail = [".org 0x1234"]
+    for n, v in TRAILER:
+        tail += ["%s:" % n, "  .db 0xee"]
+    return ".msp430\n" + "\n".join(render(prog)) + "\n" + "\n".join(tail) + "\n"
+
+
 class Checker:
     def __init__(self, stats, worker):
         self.s = stats
@@ -377,7 +399,7 @@ class Checker:
         raise Violation(p)
 
     def check_program(self, prog):
-        src = ".msp430\n" + "\n".join(render(prog)) + "\n"
+        src = full_source(prog)
         img, labels, info = model(prog)
         r = self.asm(src)
         extra = dict(mode="program", model_image=img, model_syms=labels)
@@ -388,8 +410,10 @@ class Checker:
         if not r.ok:
             return self.fail("valid conditional program rejected", "rejected", prog, src, "accepted",
                              "; ".join(r.diag())[:300], extra=extra)
-        got = [r.image[a] for a in sorted(r.image)]
-        contiguous = sorted(r.image) == list(range(len(r.image)))
+        body = {a: b for a, b in r.image.items() if a < 0x1234}
+        tail = {a: b for a, b in r.image.items() if a >= 0x1234}
+        got = [body[a] for a in sorted(body)]
+        contiguous = sorted(body) == list(range(len(body))) and tail == {0x1234 + i: 0xee for i in range(len(TRAILER))}
         if got != img or not contiguous:
             return self.fail("assembled markers differ from the branches the conditions select", "wrong_image",
                              prog, src, img, got, extra=extra)
@@ -496,7 +520,7 @@ def replay(payload):
             return False, "rejected now"
         if not r.ok:
             return payload["kind"] == "rejected", "rejected"
-        got = [r.image[a] for a in sorted(r.image)]
+        got = [r.image[a] for a in sorted(r.image) if a < 0x1234]
         if got != payload["model_image"]:
             return True, "image differs: %s" % got
         syms = {n: a for (n, sc), a in r.symdict(2).items() if sc == 0}
